@@ -129,7 +129,9 @@ type c18Witness struct {
 	calls  int
 }
 
-func (w *c18Witness) GetLatestCheckpoint(context.Context, string) ([]byte, error) { return w.latest, nil }
+func (w *c18Witness) GetLatestCheckpoint(context.Context, string) ([]byte, error) {
+	return w.latest, nil
+}
 func (w *c18Witness) Update(_ context.Context, _ string, old uint64, cp []byte, p [][]byte) ([]byte, error) {
 	w.calls++
 	w.old, w.proof, w.cp = old, p, cp
